@@ -1,0 +1,99 @@
+//go:build verif
+
+// Contracts for package fs (comment-only; read by /verif/govc).
+
+package fs
+
+// ---- statistics ring (C04, C07) -------------------------------------------
+//@ type stats invariant [pos-in-ring] 0 <= self.pos && self.pos < 100
+
+//@ func (*stats).transmittedPerc
+//@   assigns nothing
+//@ func (*stats).totalLineCount
+//@   assigns nothing
+//@   ensures [def] result == f.lineCount
+//@ func (*stats).updatePosition
+//@   assigns f.pos, f.lineCount
+//@   ensures [count] f.lineCount == old(f.lineCount) + 1
+//@   ensures [pos] f.pos == (old(f.pos) + 1) % 100
+//@ func (*stats).updateLineMatched
+//@   assigns f.matched, f.matchCount
+//@ func (*stats).updateLineNotMatched
+//@   assigns f.matched, f.matchCount
+//@ func (*stats).updateLineTransmitted
+//@   assigns f.transmitted, f.transmitCount
+//@ func (*stats).updateLineNotTransmitted
+//@   assigns f.transmitted, f.transmitCount
+
+// ---- reader ----------------------------------------------------------------
+// Raw lines travel as non-nil buffers; delivered lines are non-nil and carry a
+// non-nil content buffer.
+//@ func (*readFile).read
+//@   requires [rawLines] rawLines != nil
+//@   chaninv rawLines [raw-nonnil] elem != nil
+//@   loop 1 invariant [message] message != nil
+//@ func (*readFile).handleReadByte
+//@   requires [message] message != nil
+//@   requires [rawLines] rawLines != nil
+//@   chaninv rawLines [raw-nonnil] elem != nil
+//@   ensures [message-kept] result1 != nil
+//@ func (*readFile).handleReadError
+//@   requires [message] message != nil
+//@   chaninv rawLines [raw-nonnil] elem != nil
+//@ func (*readFile).transmittable
+//@   requires [rawLine] rawLine != nil
+//@   assigns f.stats
+//@   ensures [content] implies(result1, result0.Content == rawLine)
+//@   requires [regex-usable] len(re.flags) >= 1 && implies(re.flags[0] == regex.Default || re.flags[0] == regex.Invert, re.re != nil)
+//@   ensures [line] result0 != nil
+//@ func (*readFile).filter
+//@   requires [regex-usable] len(re.flags) >= 1 && implies(re.flags[0] == regex.Default || re.flags[0] == regex.Invert, re.re != nil)
+//@   chaninv rawLines [raw-nonnil] elem != nil
+//@   chaninv lines [line-wellformed] elem != nil && elem.Content != nil
+//@ func (*readFile).filterWithoutLContext
+//@   requires [regex-usable] len(re.flags) >= 1 && implies(re.flags[0] == regex.Default || re.flags[0] == regex.Invert, re.re != nil)
+//@   chaninv rawLines [raw-nonnil] elem != nil
+//@   chaninv lines [line-wellformed] elem != nil && elem.Content != nil
+//@ func (*readFile).filterWithLContext
+//@   requires [regex-usable] len(re.flags) >= 1 && implies(re.flags[0] == regex.Default || re.flags[0] == regex.Invert, re.re != nil)
+//@   chaninv rawLines [raw-nonnil] elem != nil
+//@   chaninv lines [line-wellformed] elem != nil && elem.Content != nil
+//@   chaninv ls.beforeBuf [raw-nonnil] open: elem != nil
+//@ func (*readFile).filterLineWithLContext
+//@   assigns f.stats, ls.maxCount, ls.maxReached, ls.after, *lines, *ls.beforeBuf
+//@   requires [ptrs] ltx != nil && ls != nil && re != nil && rawLine != nil
+//@   requires [regex-usable] len(re.flags) >= 1 && implies(re.flags[0] == regex.Default || re.flags[0] == regex.Invert, re.re != nil)
+//@   requires [before-buffer] implies(ls.processBefore, ls.beforeBuf != nil)
+//@   chaninv lines [line-wellformed] elem != nil && elem.Content != nil
+//@   chaninv ls.beforeBuf [raw-nonnil] open: elem != nil
+//@ func (*readFile).lContextNotMatched
+//@   requires [ptrs] ls != nil && rawLine != nil
+//@   requires [before-buffer] implies(ls.processBefore, ls.beforeBuf != nil)
+//@   chaninv lines [line-wellformed] elem != nil && elem.Content != nil
+//@   chaninv ls.beforeBuf [raw-nonnil] open: elem != nil
+//@   assigns ls.after, *ls.beforeBuf, *lines
+//@   ensures [never-nothing] result != nothing
+//@ func (*readFile).lContextProcessBefore
+//@   requires [ptrs] ls != nil
+//@   requires [before-buffer] ls.beforeBuf != nil
+//@   chaninv lines [line-wellformed] elem != nil && elem.Content != nil
+//@   chaninv ls.beforeBuf [raw-nonnil] open: elem != nil
+//@   assigns *ls.beforeBuf, *lines
+//@ func (*readFile).lContextProcessMaxCount
+//@   requires [ptrs] ls != nil
+//@   assigns ls.maxCount, ls.maxReached
+//@ func (readFile).Start
+//@   requires [regex-usable] len(re.flags) >= 1 && implies(re.flags[0] == regex.Default || re.flags[0] == regex.Invert, re.re != nil)
+//@   chaninv lines [line-wellformed] elem != nil && elem.Content != nil
+//@   chaninv rawLines [raw-nonnil] elem != nil
+//@ func (readFile).Start$1
+//@   requires [captured] readCancel != nil
+//@   requires [ctx] ctx != nil
+//@   requires [regex-usable] len(re.flags) >= 1 && implies(re.flags[0] == regex.Default || re.flags[0] == regex.Invert, re.re != nil)
+//@   chaninv rawLines [raw-nonnil] elem != nil
+//@   chaninv lines [line-wellformed] elem != nil && elem.Content != nil
+
+// The FileReader interface as used by readCommand.read.
+//@ iface FileReader.Start
+//@   requires [regex-usable] len(arg4.flags) >= 1 && implies(arg4.flags[0] == regex.Default || arg4.flags[0] == regex.Invert, arg4.re != nil)
+//@   chaninv arg3 [line-wellformed] elem != nil && elem.Content != nil
